@@ -80,6 +80,14 @@ theorem LogOk_split {pre post : List Ev} {n : Nat} {b : Bool}
 
 /-! ### the collector -/
 
+theorem mem_refsOf (xrs : List XR) (g : Nat) : g ∈ refsOf xrs ↔ ∃ x ∈ xrs, some g ∈ x.refs := by
+  simp only [refsOf, List.mem_flatMap, List.mem_map, List.mem_filterMap, id]
+  constructor
+  · rintro ⟨l, ⟨x, hx, rfl⟩, a, ha, rfl⟩
+    exact ⟨x, hx, ha⟩
+  · rintro ⟨x, hx, h⟩
+    exact ⟨x.refs, ⟨x, hx, rfl⟩, some g, h, rfl⟩
+
 /-- a watch the collector may stop: a composed-resource watch on a kind no XR references -/
 def Collectable (refs : List Nat) (w : Wid) : Prop := w.ty = .composed ∧ w.gvk ∉ refs
 
@@ -118,9 +126,9 @@ theorem GcPcOk_xwPc {refs : List Nat} {srcs : List (Wid × Nat)} {ws : List Wid}
     exact ⟨h w h1, fun x hx' => h x (h2 x hx')⟩
 
 /-- a collector thread stays on the collector's path, intending to stop collectable watches only -/
-theorem GcPcOk_next {s : Sys} {i : Nat} {n : Nat} {refs : List Nat} {pc : Pc} {ch : Choice} {pc' : Pc} {act : Act}
-    (hold : GcPcOk refs pc)
-    (hn : next Cfg.fixed s i ⟨.gc n refs, pc⟩ ch = some (pc', act)) : GcPcOk refs pc' := by
+theorem GcPcOk_next {s : Sys} {i : Nat} {n : Nat} {xrs : List XR} {pc : Pc} {ch : Choice} {pc' : Pc} {act : Act}
+    (hold : GcPcOk (refsOf xrs) pc)
+    (hn : next Cfg.fixed s i ⟨.gc n xrs, pc⟩ ch = some (pc', act)) : GcPcOk (refsOf xrs) pc' := by
   cases pc <;> simp only [GcPcOk] at hold <;> simp only [next] at hn
   all_goals (repeat' (split at hn))
   all_goals first
@@ -151,7 +159,7 @@ theorem GcPcOk_next {s : Sys} {i : Nat} {n : Nat} {refs : List Nat} {pc : Pc} {c
     exact ((gcStop_fixed_iff _ _ _).1 hw').2
 
 def GcInv (s : Sys) : Prop :=
-  ∀ (i : Nat) (t : Thread), s.threads[i]? = some t → ∀ n refs, t.op = .gc n refs → GcPcOk refs t.pc
+  ∀ (i : Nat) (t : Thread), s.threads[i]? = some t → ∀ n xrs, t.op = .gc n xrs → GcPcOk (refsOf xrs) t.pc
 
 theorem GcInv_init (ops : List Op) : GcInv (init ops) := by
   intro i t ht n refs _
@@ -184,15 +192,15 @@ theorem GcInv_reachable {ops : List Op} {s : Sys} (h : Reachable Cfg.fixed ops s
   | step i ch _ hs ih => exact GcInv_step ih hs
 
 /-- whatever a step of a collector thread removes from a controller's sources is collectable -/
-theorem gc_step_removes_collectable {s s' : Sys} {i : Nat} {ch : Choice} {t : Thread} {n : Nat} {refs : List Nat}
-    (hgc : GcInv s) (ht : s.threads[i]? = some t) (hop : t.op = .gc n refs)
+theorem gc_step_removes_collectable {s s' : Sys} {i : Nat} {ch : Choice} {t : Thread} {n : Nat} {xrs : List XR}
+    (hgc : GcInv s) (ht : s.threads[i]? = some t) (hop : t.op = .gc n xrs)
     (h : step Cfg.fixed s i ch = some s') (cid : Nat) (w : Wid) (reg : Nat)
     (hbefore : aget w (srcsOf s cid) = some reg) (hafter : aget w (srcsOf s' cid) = none) :
-    Collectable refs w := by
+    Collectable (refsOf xrs) w := by
   obtain ⟨t', pc', act, ht', hn, hs⟩ := step_unpack h
   rw [ht] at ht'
   cases ht'
-  have hok := hgc i t ht n refs hop
+  have hok := hgc i t ht n xrs hop
   have hf := next_act_cases hn
   subst hs
   cases act
